@@ -44,12 +44,18 @@ def run(ctx):
         cases.append(c)
     # in-place updates mixing data-holding and placeholder operands (named in the property)
     for i in range(80 if ctx.tier == "quick" else 600):
-        d = rnd.choice(["int64", "float64", "int32", "nint64"])
+        d = rnd.choice(["int64", "float64", "int32", "nint64", "nfloat64"])
         sh = ops.rand_shape(rnd, 2, 0.05, (1, 2, 3), min_rank=1)
         a, b = ops.tensor(rnd, d, sh, "small"), ops.tensor(rnd, d, sh if rnd.random() < 0.6 else sh[1:], "small")
         form = rnd.choice(["t = a.copy(); t += b; out = t", "t = a.copy(); t *= b; out = t", "t = a.copy(); t[...] = b; out = t",
                            "t = a.copy(); t[0] = b[0] if b.ndim == t.ndim else b; out = t", "t = a.copy(); u = t; t -= b; out = u",
                            "t = a.copy(); t += b; out = t + 1"])
+        if ops.nullable(d) and rnd.random() < 0.6:
+            # the update goes through a field alias, after the parent's value / rank has been read once
+            form = rnd.choice(["t = a.copy(); n_ = t.ndim; t.values[...] = b.values; out = t",
+                               "t = a.copy(); n_ = t.ndim; t.null[...] = b.null; out = t",
+                               "t = a.copy(); n_ = t.ndim; v_ = t.values; v_ += b.values; out = t",
+                               "t = a.copy(); n_ = t.ndim; m_ = t.null; m_ |= b.null; out = t + 1"])
         subs = [{"names": ["b"]}, {"names": ["a"]}, {"names": ["a", "b"]}]
         c = {"id": f"FI-{i}", "inputs": {"a": a, "b": b}, "impl": form, "oracle": None, "tol": [0, 0],
              "meta": {"func": "inplace-mixed", "dtype": d, "dclass": family.dclass(d)}, "lazy_subsets": subs}
